@@ -217,6 +217,21 @@ type raOnly struct{ r *bytes.Reader }
 
 func (r raOnly) ReadAt(p []byte, off int64) (int, error) { return r.r.ReadAt(p, off) }
 
+// raEOF is a ReaderAt that reports io.EOF together with the last bytes of the source, as the
+// io.ReaderAt contract allows ("may return either err == EOF or err == nil" when n == len(p)).
+type raEOF struct{ b []byte }
+
+func (r raEOF) ReadAt(p []byte, off int64) (int, error) {
+	if off >= int64(len(r.b)) {
+		return 0, io.EOF
+	}
+	n := copy(p, r.b[off:])
+	if off+int64(n) == int64(len(r.b)) {
+		return n, io.EOF
+	}
+	return n, nil
+}
+
 // fourWay runs all four entry points on stream and compares them with
 // Buf(stream[:24]); it also checks that ScanBuf did not consume.
 func fourWay(orig []byte) (imagetype.ImageType, error, string) {
@@ -267,6 +282,10 @@ func fourWay(orig []byte) (imagetype.ImageType, error, string) {
 	t4, e4 := imagetype.ReadAt(raOnly{bytes.NewReader(stream)})
 	if t4 != t0 || cls(e4) != cls(e0) {
 		return t0, e0, fmt.Sprintf("ReadAt=%s/%s Buf=%s/%s", t4, cls(e4), t0, cls(e0))
+	}
+	t8, e8 := imagetype.ReadAt(raEOF{stream})
+	if t8 != t0 || cls(e8) != cls(e0) {
+		return t0, e0, fmt.Sprintf("ReadAt(source that reports EOF with its last bytes)=%s/%s Buf=%s/%s", t8, cls(e8), t0, cls(e0))
 	}
 	// Scan on a bufio.Reader the caller owns must not consume either
 	br2 := bufio.NewReaderSize(bytes.NewReader(stream), 4096)
